@@ -14,7 +14,9 @@ typedef unsigned long long vp_word;
 
 /* word w of row r of M, current value / value before the call */
 #define VP_W(M, r, w) ((M)->data[(wi_t)(r) * (M)->rowstride + (wi_t)(w)])
-#if defined(VP_ASSERT_MODE) && !defined(VP_NATIVE)
+#if defined(VP_NO_SHADOW)
+#define VP_W0(M, r, w) VP_W(M, r, w)
+#elif defined(VP_ASSERT_MODE) && !defined(VP_NATIVE)
 #define VP_W0(M, r, w) (vp_old_data(M)[(wi_t)(r) * (M)->rowstride + (wi_t)(w)])
 #else
 #define VP_W0(M, r, w) VP_OLD(VP_W(M, r, w))
@@ -47,7 +49,7 @@ typedef unsigned long long vp_word;
 /* shadow copy of the block M lives in, at M->data's offset */
 static inline word const *vp_old_data(mzd_t const *M) {
   for (int k = 0; k < vp_reg_cnt; ++k)
-    if (vp_reg_hdr[k] == (void *)M) return (word const *)(vp_reg_old[k] + ((char *)M->data - vp_reg_blk[k]));
+    if (vp_reg_hdr[k] == (void *)M) return (word const *)(vp_reg_old[k] + (M->data - (word *)vp_reg_blk[k]));
   __CPROVER_assert(0, "VP_W0 of an unregistered matrix");
   return M->data;
 }
